@@ -1,4 +1,6 @@
 import Firebolt.Spec.Route
+import Firebolt.Generated.Source
+import Firebolt.Expected.Source
 /-!
 # C11 — Messages are routed to exactly the subscribed source and nodes
 
@@ -171,5 +173,14 @@ theorem spec_holds (t : String) (srcSubs : List String) (srcFail : Bool) (roots 
   have a2 : (deliver t srcSubs srcFail roots).recipients.any (fun r => !(deliver t srcSubs srcFail roots).recipients.contains r) = false := by
     rw [List.any_eq_false]; intro x hx; simp [hx]
   simp [a1, a2]
+
+
+/-! ### the functions this model was transcribed from are unchanged (regenerated from /repo on every run) -/
+theorem source_exDeliverMessage : GeneratedSrc.exDeliverMessage = ExpectedSrc.exDeliverMessage := by rfl
+theorem source_exDeliverMessageToNode : GeneratedSrc.exDeliverMessageToNode = ExpectedSrc.exDeliverMessageToNode := by rfl
+theorem source_exAddError : GeneratedSrc.exAddError = ExpectedSrc.exAddError := by rfl
+theorem source_exNewContextMessage : GeneratedSrc.exNewContextMessage = ExpectedSrc.exNewContextMessage := by rfl
+theorem source_ctxSubscribe : GeneratedSrc.ctxSubscribe = ExpectedSrc.ctxSubscribe := by rfl
+theorem source_ctxAcceptsMessage : GeneratedSrc.ctxAcceptsMessage = ExpectedSrc.ctxAcceptsMessage := by rfl
 
 end Firebolt.C11
